@@ -639,6 +639,11 @@ func sites() []site {
 	s = append(s, traceqlSite("traceql.and", `{resource.svc=%s && .bar="x"} | count() > 1`, "plan", false))
 	s = append(s, traceqlSite("traceql.complex", `{.foo=%s} && {.bar=~"y"}`, "plan", false))
 	s = append(s, traceqlSite("traceql.eval", `{.foo=%s}`, "eval", false))
+	// round 4: more shapes of the evaluation planner (PlanEval: attr_condition_eval, attrless_eval, complex_eval_or, eval_finalizer)
+	s = append(s, traceqlSite("traceql.eval=~", `{.foo=~%s}`, "eval", false))
+	s = append(s, traceqlSite("traceql.eval.and!~", `{resource.a="x" && span.b!~%s}`, "eval", false))
+	s = append(s, traceqlSite("traceql.eval.or", `{.foo=%s} || {.bar="x"}`, "eval", false))
+	s = append(s, traceqlSite("traceql.eval.name.agg", `{name=%s && .n > 1} | count() > 2`, "eval", false))
 	s = append(s, traceqlSite("traceql.tagsv2", `{.foo=%s}`, "tags", false))
 	s = append(s, traceqlSite("traceql.valuesv2.q", `{.foo=~%s}`, "values", false))
 	// round 3: more shapes (or, nested parentheses, chains of selectors, aggregators, tags/values planners)
